@@ -165,7 +165,12 @@ func (nm LNumber) Format(f fmt.State, c rune) {
 		}
 	case 'o', 'u', 'x', 'X':
 		// unsigned conversions: C prints the two's complement of a negative value
-		formatInteger(unsignedFmtState{f}, c, false, uint64(int64(nm)))
+		u := uint64(int64(nm))
+		if nm >= 1<<63 {
+			// (unsigned long long)x of C is exact for 2^63 <= x < 2^64; the detour through int64 is not
+			u = uint64(nm)
+		}
+		formatInteger(unsignedFmtState{f}, c, false, u)
 	case 'e', 'E', 'f', 'F', 'g', 'G':
 		defaultFormat(float64(nm), f, c)
 	default:
